@@ -436,11 +436,11 @@ func init() {
 func init() {
 	tail := "; 1..6 rounds, each Assume(list of 0..5 literals: random, repeated, contradicting each other, contradicting the previous round, contradicting/repeating a unit clause) then Solve; oracle per round = truth table of base AND this round's assumptions only; non-trivial = >=2 rounds with different verdicts or a round after an Unsat round"
 	vf.Register(
-		vf.Sub[Case]{Name: "card-base", Quick: 8000, Thorough: 100000, Gen: genConstrBase("card"), Check: check, Floor: 0.15,
+		vf.Sub[Case]{Name: "card-base", Quick: 8000, Thorough: 50000, Gen: genConstrBase("card"), Check: check, Floor: 0.15,
 			Rule: "base = 1..5 cardinality constraints of 3..6 literals (degree >= 2, either polarity) plus n/2..2n clauses of 2..3 literals over 5..12 variables, through ParseCardConstrs" + tail},
-		vf.Sub[Case]{Name: "pb-base", Quick: 8000, Thorough: 100000, Gen: genConstrBase("pb"), Check: check, Floor: 0.15,
+		vf.Sub[Case]{Name: "pb-base", Quick: 8000, Thorough: 50000, Gen: genConstrBase("pb"), Check: check, Floor: 0.15,
 			Rule: "the same with weighted constraints (coefficients 1..3) among them, through ParsePBConstrs" + tail},
-		vf.Sub[Case]{Name: "small", Quick: 15000, Thorough: 200000, Gen: genSmall, Check: check, Floor: 0.2,
+		vf.Sub[Case]{Name: "small", Quick: 15000, Thorough: 100000, Gen: genSmall, Check: check, Floor: 0.2,
 			Rule: "base CNF n<=10 with unit clauses, duplicate literals, unused variables" + tail},
 		vf.Sub[Case]{Name: "conflict-rich", Quick: 3000, Thorough: 40000, Gen: genHard, Check: check, Floor: 0.3,
 			Classes: map[string]float64{"conflicts>=10": 0.12},
